@@ -6,6 +6,7 @@ kind IRI / blank node / IRI-or-blank-node; referenced shape; single allowed clas
 ShExC cardinality ({k}->k..k, '+'->1.., '*'->none, '?'->..1, absent->1..1).
 Oracle: both serialisations of ONE Shaper parsed into (shape, targetClass, direction, predicate, restriction, min, max) sets.
 """
+import os
 from hypothesis import strategies as st
 from .. import sut, oracle, common, refmodel, shexc, gen_graph as gg
 from ..runner import ok, violation, known, discard
@@ -34,7 +35,13 @@ def cases(draw):
         if target["mode"] == "classes":
             target["classes"] = target["classes"] + ["http://ex.org/C9"]      # a requested class without instances: empty shape
     thr = draw(st.sampled_from([0, 0, 0, 0.5, 1 / 3, 1]))
-    return {"g": g, "cfg": cfg, "target": target, "thr": thr}
+    case = {"g": g, "cfg": cfg, "target": target, "thr": thr}
+    if draw(st.integers(0, 3)) == 0:
+        # the two documents are taken from files; the files may hold the documents of an earlier extraction (another
+        # threshold) written by the same or by another Shaper, and the text may be requested as a string in the same call
+        case["files"] = {"earlier_thr": draw(st.sampled_from([None, 0, 0.5, 1])), "same_shaper": draw(st.booleans()),
+                         "also_string": draw(st.booleans())}
+    return case
 
 
 def strategy(tier):
@@ -132,7 +139,23 @@ def check(case):
         a = sh.shex_graph(string_output=True, acceptance_threshold=thr)
         b = sh.shex_graph(string_output=True, acceptance_threshold=thr, output_format="Shacl")
         return a, b
-    res, crash = sut.guarded(go, 30)
+
+    def go_files(d):
+        fs = case["files"]
+        pa, pb = os.path.join(d, "out.shex"), os.path.join(d, "out.ttl")
+        sh = sut.Shaper(**kw)
+        if fs["earlier_thr"] is not None:
+            first = sh if fs["same_shaper"] else sut.Shaper(**kw)
+            first.shex_graph(output_file=pa, string_output=fs["also_string"], acceptance_threshold=fs["earlier_thr"])
+            first.shex_graph(output_file=pb, string_output=fs["also_string"], acceptance_threshold=fs["earlier_thr"], output_format="Shacl")
+        sh.shex_graph(output_file=pa, string_output=fs["also_string"], acceptance_threshold=thr)
+        sh.shex_graph(output_file=pb, string_output=fs["also_string"], acceptance_threshold=thr, output_format="Shacl")
+        return open(pa, encoding="utf-8").read(), open(pb, encoding="utf-8").read()
+    if case.get("files"):
+        with sut.tmpdir() as d:
+            res, crash = sut.guarded(lambda: go_files(d), 30)
+    else:
+        res, crash = sut.guarded(go, 30)
     if crash is not None:
         return discard("crash:" + crash.bucket)
     shex_text, shacl_text = res
@@ -153,6 +176,8 @@ def check(case):
     except Exception as e:
         return discard("unparsable-shacl")
     labels = set()
+    if case.get("files"):
+        labels.add("documents-from-files")
     nonlit = any(t[3][0] in ("nodekind", "node") for t in st_)
     nt = nonlit and any((t[4], t[5]) != (1, 1) for t in st_)
     if nt:
